@@ -6,6 +6,7 @@ import (
 	"go/types"
 	"os"
 	"runtime"
+	"sort"
 	rtdebug "runtime/debug"
 	"strings"
 	"time"
@@ -197,6 +198,17 @@ func Explore(prog *ssa.Program, fn *ssa.Function, e *Engine) (infra string) {
 			break
 		}
 	}
+	// cross-path existential obligations (gosym.Expect): every declared witness label must have
+	// been reached by at least one feasible path.
+	for _, l := range sortedKeysAPI(e.Expected) {
+		e.Asserts++
+		e.AssertLabels["expected witness is reachable"]++
+		if e.Reached[l] > 0 {
+			e.Discharged++
+			continue
+		}
+		e.Violations = append(e.Violations, Violation{Label: "expected witness never reached: " + l, Unreached: l, API: e.Expected[l], Entry: e.EntryName})
+	}
 	return ""
 }
 
@@ -261,3 +273,12 @@ func (e *Engine) pathPanic(msg string) {
 }
 
 var _ = time.Now
+
+func sortedKeysAPI(m map[string][]APIEvent) []string {
+	var ks []string
+	for k := range m {
+		ks = append(ks, k)
+	}
+	sort.Strings(ks)
+	return ks
+}
